@@ -1,2 +1,12 @@
 import Heathcliff.Props.C02
-#print axioms HC.C02.placeholder
+#print axioms HC.C02.mulPairs_spec
+#print axioms HC.C02.ct_mul_phase
+#print axioms HC.C02.translate_phase
+#print axioms HC.C02.negate_phase
+#print axioms HC.C02.mul_plain_phase
+#print axioms HC.C02.add_plain_phase
+#print axioms HC.C02.balance_spec
+#print axioms HC.C02.balance_total
+#print axioms HC.C02.bgv_add_balanced
+#print axioms HC.C02.bgv_mul_factor
+#print axioms HC.C02.prog_hom
